@@ -62,7 +62,7 @@ class Check:
 
     def exec_and_validate(self, module, cmds, keyfn, accel=False, cost=None, shards=None,
                           result_keys=None, timeout=3000, tag="t", env=None, pure_budget=0,
-                          families=("bits",), variant=None):
+                          families=("bits",), variant=None, fresh=False):
         """Runs the commands on the real code, validates the events with TLC, confirms every
         distinct failure key by re-executing its scenario, and records it."""
         if not cmds:
@@ -77,7 +77,22 @@ class Check:
         if variant == "glue":          # the arm64 Go glue transplanted onto the amd64 kernels (vlib/glue.py)
             from . import glue as _glue
             drvpath = _glue.build_glue_driver(self)
-        events = core.run_driver(drvpath, cmds, self.rd, tag=tag, env=env)
+        if fresh:
+            # every scenario in a process of its own: its first command is the FIRST use of the library in that process
+            # (lazily built tables, init-order dependences between entry points)
+            groups, cur = [], []
+            for c in cmds:
+                if c.get("op") == "scenario" and cur:
+                    groups.append(cur)
+                    cur = []
+                cur.append(c)
+            if cur:
+                groups.append(cur)
+            events = []
+            for gcmds in groups:
+                events += core.run_driver(drvpath, gcmds, self.rd, tag=tag, env=env)
+        else:
+            events = core.run_driver(drvpath, cmds, self.rd, tag=tag, env=env)
         if accel:
             from . import accel as _accel
             _accel.selftest(self, families)
@@ -163,6 +178,25 @@ class Check:
                                      event=_shorten([b["ev"]])[0], count=len(bl), env=env or {}))
             self.bad.append(dict(key=k, why=b["why"], replay=path, count=len(bl)))
         return events
+
+    def first_use(self, module, cmds, keyfn, count=6, **kw):
+        """A seeded sample of the scenarios again, EACH IN A FRESH PROCESS: its first command is then the first use of the
+        library in that process (lazily built tables or constants, init-order dependences between entry points)."""
+        groups, cur = [], []
+        for c in cmds:
+            if c.get("op") == "scenario" and cur:
+                groups.append(cur)
+                cur = []
+            cur.append(c)
+        if cur:
+            groups.append(cur)
+        small = [g for g in groups if len(json.dumps(g)) < 20000]
+        pick = self.rng.sample(small, min(count, len(small)))
+        flat = [dict(c) for g in pick for c in g]
+        for c in flat:
+            if c.get("op") == "scenario":
+                c["cls"] = "first_use_" + c.get("cls", "")
+        return self.exec_and_validate(module, flat, lambda b: "first_use." + keyfn(b), tag="first", fresh=True, **kw)
 
     def add_failure(self, key, why, replay_obj):
         path = core.write_replay(self.prop, key, replay_obj.get("commands", []), extra=replay_obj)
